@@ -180,10 +180,11 @@ Example C08_reconstructs_nonvacuous :
   let a := {| ad_attrs := [([x4e], [x22; x61; x22]); ([x43; x6c; x61; x69; x6d; x49; x64], [x22; x73; x22]); ([x43], [x34])];
               ad_mytype := [x4d]; ad_targettype := [] |} in
   secret_is_noop true true = true /\ opt_no_types (c_opts c) = false /\
-  Forall (valid_str true) (ad_items c a) /\ type_ok (ad_mytype a) /\ type_ok (ad_targettype a) /\
-  length (ad_items c a) = 5%nat.
+  type_ok (ad_mytype a) /\ type_ok (ad_targettype a) /\
+  length (ad_items c a) = 5%nat /\
+  forallb (fun s => negb (existsb (fun b => byte_eqb b x00) s) &&
+                    negb (match s with b :: _ => byte_eqb b xad | [] => false end)) (ad_items c a) = true.
 Proof.
-  cbv zeta. split; [reflexivity|]. split; [reflexivity|]. split.
-  - vm_compute. repeat constructor; try discriminate; intros _; split; try discriminate; reflexivity.
-  - split; [right; reflexivity|]. split; [left; reflexivity|reflexivity].
+  cbv zeta. split; [reflexivity|]. split; [reflexivity|].
+  split; [right; reflexivity|]. split; [left; reflexivity|]. split; vm_compute; reflexivity.
 Qed.
